@@ -17,10 +17,14 @@ import (
 // generated, built and run on every input <= 5 tokens. The listener's reduction sequence, the
 // verdict and the error offset must equal those of the reference LR parser driven by the
 // documented resolutions (internal/reflalr + the rule in expect()).
-func (k *caseT) tm(name string, sr, rr int) string {
+func (k *caseT) tm(name string, sr, rr int, opts []string) string {
 	var sb strings.Builder
 	g := k.G
-	fmt.Fprintf(&sb, "language %s(go);\n\npackage = \"scratch/%s\"\neventBased = true\n\n:: lexer\n\n", name, name)
+	fmt.Fprintf(&sb, "language %s(go);\n\npackage = \"scratch/%s\"\neventBased = true\n", name, name)
+	for _, o := range opts {
+		sb.WriteString(o + "\n")
+	}
+	sb.WriteString("\n:: lexer\n\n")
 	for t := 1; t <= g.T; t++ {
 		fmt.Fprintf(&sb, "%s: /%c/\n", g.SymName(t), gramenum.TermChar(t))
 	}
@@ -61,6 +65,16 @@ func (k *caseT) tm(name string, sr, rr int) string {
 	return sb.String()
 }
 
+// table options rotated over the generated grammars (by index): the resolution of a conflict by
+// precedence has to survive every table encoding, in particular the explicit error entries of
+// %nonassoc under defaultReduce (which replaces the most common reduction of a state by a default).
+var layerBOptions = [][]string{
+	nil,
+	{"optimizeTables = true"},
+	{"optimizeTables = true", "defaultReduce = true"},
+	{"minimizeDFA = true"},
+}
+
 func layerB(c *core.Ctx, cands []caseT, maxGrammars int) {
 	if len(cands) > maxGrammars {
 		var sel []caseT
@@ -92,7 +106,7 @@ func layerB(c *core.Ctx, cands []caseT, maxGrammars int) {
 			name := fmt.Sprintf("g%04d", i)
 			var cases []genharness.Case
 			gramenum.AllStrings(k.G.T, LB, func(w string) { cases = append(cases, genharness.Case{Text: w, Mode: "parse"}) })
-			specs = append(specs, genharness.Spec{Name: name, TM: k.tm(name, exp.sr, exp.rr), Cases: cases})
+			specs = append(specs, genharness.Spec{Name: name, TM: k.tm(name, exp.sr, exp.rr, layerBOptions[i%len(layerBOptions)]), Cases: cases})
 		}
 		outs, err := genharness.RunBatch(specs, genharness.BatchOpts{})
 		if err != nil {
@@ -149,6 +163,12 @@ func layerB(c *core.Ctx, cands []caseT, maxGrammars int) {
 				last := tr.Last()
 				if last.Kind == tabinterp.Loop {
 					continue // the documented resolutions themselves loop (ambiguous grammar resolved into a cycle): nothing is promised
+				}
+				if last.Kind == tabinterp.Error && strings.Contains(specs[bi].TM, "defaultReduce = true") && len(got) >= len(want) {
+					// defaultReduce: the parser may perform further (default) reductions before it
+					// notices the error at the same token; the documented reductions must be a prefix
+					got = got[:len(want)]
+					c.Add("layerB_error_runs_under_defaultReduce", 1)
 				}
 				bad := fmt.Sprint(got) != fmt.Sprint(want) || (last.Kind == tabinterp.Accept) != res.Accept || (last.Kind == tabinterp.Error && last.Arg != res.ErrOff)
 				if bad {
